@@ -163,6 +163,40 @@ func Harness_C06_commit() {
 	zzverif.Reach("end")
 }
 
+// a commit with a text field at the 16-bit boundary: written and read back, or refused
+// at write time - never written as something unreadable
+func Harness_C06_commit_long() {
+	l := zzverif.Param("len", 65536)
+	field := zzverif.Param("field", 0) // 0 message, 1 author name, 2 author email
+	long := strings.Repeat("m", l-1) + zzverif.String("last", 1)
+	c := &Commit{Table: bytes.Repeat([]byte{7}, 16), AuthorName: "n", AuthorEmail: "e", Message: "x", Time: time.Unix(1600000000, 0).UTC()}
+	switch field {
+	case 0:
+		c.Message = long
+	case 1:
+		c.AuthorName = long
+	case 2:
+		c.AuthorEmail = long
+	}
+	buf := bytes.NewBuffer(nil)
+	_, err := c.WriteTo(buf)
+	if l > 65535 {
+		zzverif.Assert("text-field-over-65535-bytes-is-refused-at-write-time", err != nil)
+		zzverif.Reach("end")
+		return
+	}
+	zzverif.Assert("text-field-within-limit-is-written", err == nil)
+	if err != nil {
+		return
+	}
+	_, got, err := ReadCommitFrom(bytes.NewReader(buf.Bytes()))
+	zzverif.Assert("long-commit-decodes", err == nil)
+	if err == nil {
+		zzverif.Assert("long-commit-fields-roundtrip", got.Message == c.Message && got.AuthorName == c.AuthorName && got.AuthorEmail == c.AuthorEmail)
+	}
+	zzverif.Reach("end")
+}
+
 // ---- c: table ----
 func Harness_C06_table() {
 	ncols := zzverif.Param("cols", 2)
